@@ -4,9 +4,10 @@
  (full suite unless --pkgs given), (3) the demonstration fails with the change.
 usage: lib/verify_seeded.py <seeded id> <package dir for demo_test.go> [--pkgs './pkg/x/... ./internal/...']
 Records the outcome in seeded/<id>/meta.json under "verified"."""
-import json, os, shutil, subprocess, sys
+import json, os, re, shutil, subprocess, sys
 V = os.path.dirname(os.path.dirname(os.path.abspath(__file__)))
-sid, pkgdir = sys.argv[1], sys.argv[2]
+sid = sys.argv[1]
+pkgdir = sys.argv[2] if len(sys.argv) > 2 and not sys.argv[2].startswith("--") else json.load(open(os.path.join(os.path.dirname(os.path.dirname(os.path.abspath(__file__))), "seeded", sid, "meta.json"))).get("demo_pkg")
 pkgs = "./..."
 if "--pkgs" in sys.argv:
     pkgs = sys.argv[sys.argv.index("--pkgs") + 1]
@@ -18,6 +19,7 @@ def sh(cmd, **kw):
 subprocess.run(["git", "-C", "/repo", "worktree", "remove", "--force", wt], stdout=subprocess.DEVNULL, stderr=subprocess.DEVNULL)
 subprocess.run(["git", "-C", "/repo", "worktree", "add", "--detach", wt, "HEAD"], check=True, stdout=subprocess.DEVNULL, stderr=subprocess.DEVNULL)
 res = {}
+RUNPAT = "|".join(sorted(set(re.findall(r"^func (Test\w+)", "".join(open(os.path.join(d, f)).read() for f in os.listdir(d) if f.endswith("_test.go")), re.M)))) or "Demo"
 try:
     demos = [f for f in os.listdir(d) if f.endswith("_test.go")]
     r = sh("git apply --check %s" % os.path.join(d, "patch.diff")); res["patch_applies"] = r.returncode == 0
@@ -41,10 +43,10 @@ try:
     res["suite_with_change"] = "pass" + note if ok else "FAIL: " + r.stdout[-1500:]
     for f in demos:
         shutil.copy(os.path.join(d, f), os.path.join(wt, pkgdir, "zz_seeded_" + f))
-    r = sh("go test -vet=off -count=1 -run 'Demo|Seeded|Mut|TestC[0-9][0-9]' ./%s/ 2>&1 | tail -15" % pkgdir)
+    r = sh("go test -vet=off -count=1 -run '^(%s)$' ./%s/ 2>&1 | tail -15" % (RUNPAT, pkgdir))
     res["demo_with_change"] = "fails" if ("FAIL" in r.stdout) else "PASSES?: " + r.stdout[-800:]
     sh("git apply -R %s" % os.path.join(d, "patch.diff"))
-    r = sh("go test -vet=off -count=1 -run 'Demo|Seeded|Mut|TestC[0-9][0-9]' ./%s/ 2>&1 | tail -15" % pkgdir)
+    r = sh("go test -vet=off -count=1 -run '^(%s)$' ./%s/ 2>&1 | tail -15" % (RUNPAT, pkgdir))
     res["demo_without_change"] = "passes" if (r.stdout.startswith("ok") or "\nok" in r.stdout) and "FAIL" not in r.stdout else "NOT PASSING: " + r.stdout[-800:]
 finally:
     subprocess.run(["git", "-C", "/repo", "worktree", "remove", "--force", wt])
